@@ -9,7 +9,7 @@ use crate::disk::{CrashModel, FaultAction, FaultAt, FaultKind, FaultSpec, Image,
 use crate::exec::Violation;
 use crate::framework::{CheckDef, Judged, Tier};
 use crate::gen::*;
-use crate::model::Status;
+use crate::model::{ModeS, Status};
 use crate::plan::*;
 use crate::recovery::recover_check;
 use crate::rng::Rng;
@@ -33,7 +33,26 @@ fn gen(case_seed: u64, _case: u64, tier: Tier) -> Plan {
 		Tier::Thorough => rng.range(5, 40),
 	};
 	let mut steps = Vec::new();
+	let conflicts = rng.chance(1, 2);
 	for _ in 0..n {
+		if conflicts && rng.chance(1, 3) {
+			// a commit that fails with a conflict: the loser writes several keys, one of
+			// them contended; whatever it touched must not stand in the way of later commits
+			let hot = rng.below(nkeys as u64) as u16;
+			steps.push(Step::Begin { a: 1, mode: ModeS::ReadWrite });
+			steps.push(Step::Begin { a: 2, mode: ModeS::ReadWrite });
+			steps.push(Step::Set { a: 1, k: hot, v: tags.next(12), ts: None });
+			steps.push(Step::Commit { a: 1, sync: false });
+			let n_w = rng.range(1, 4);
+			let at_hot = rng.below(n_w);
+			for i in 0..n_w {
+				let k = if i == at_hot { hot } else { rng.below(nkeys as u64) as u16 };
+				steps.push(Step::Set { a: 2, k, v: tags.next(12), ts: None });
+			}
+			steps.push(Step::Commit { a: 2, sync: false });
+			steps.push(Step::Probe);
+			continue;
+		}
 		write_txn(&mut rng, 0, nkeys, &mut tags, 3, 30, budget, &mut steps);
 		steps.push(Step::Probe);
 		if rng.chance(1, 5) {
@@ -123,11 +142,39 @@ fn judge(plan: &Plan, _tier: Tier) -> Judged {
 		return j;
 	}
 	let _ = failed;
+	// a commit refused although nothing it conflicts with was sequenced after it began: an
+	// earlier failed commit stands in the way of later ones
+	if let Some(v) = super::session::conflict_check(&out.model, &out.failed_commits, &p) {
+		if v.class == "spurious_conflict" || v.class == "spurious_retry" {
+			j.violation = Some(Violation { class: v.class, detail: format!("[{}] {}", fault_desc, v.detail), explained: None });
+			let _ = std::fs::remove_dir_all(&root);
+			return j;
+		}
+		j.count(&format!("other_property.{}", v.class), 1);
+	}
+	j.count("conflict_failures", out.failed_commits.iter().filter(|f| f.class == "Conflict").count() as u64);
 	// 3. crash at the end (and at the point right after the fault fired): every commit
 	// acknowledged - before or after the fault - is recovered, failed ones are absent
 	let base = Image::default();
 	let ops = out.ops;
 	let model = out.model;
+	if let Ok(f) = std::env::var("SKV_DUMP") {
+		use std::io::Write;
+		let mut fh = std::fs::File::create(&f).unwrap();
+		for e in &out.events {
+			writeln!(fh, "ev {}", e).ok();
+		}
+		for f in &out.fired {
+			writeln!(fh, "fired {:?}", f).ok();
+		}
+		for (i, op) in ops.iter().enumerate() {
+			let s = match op {
+				Op::Write { ino, off, data } => format!("write ino={} off={} len={}", ino, off, data.len()),
+				o => o.short(),
+			};
+			writeln!(fh, "op {} {}", i, s).ok();
+		}
+	}
 	let mut points = vec![ops.len()];
 	if let Some(f) = out.fired.first() {
 		points.push((f.0 + 1).min(ops.len()));
@@ -203,8 +250,8 @@ pub fn c15() -> CheckDef {
 		assumptions: &["one fault per run (plus its persistence); positions sampled uniformly across cases rather than enumerated per workload", "a failing initial open is outside the property (no commit involved)", "after a failed fsync the bytes since the last successful sync count as unsynced in the power-loss model"],
 		components: "real: all of surrealkv incl. error paths of WAL writer, commit pipeline, flush, manifest; simulated: the failing libc call (interposer), crash images, clock, randomness; stubbed: nothing",
 		cases: |t| match t {
-			Tier::Quick => 2400,
-			Tier::Thorough => 30000,
+			Tier::Quick => 12000,
+			Tier::Thorough => 160000,
 		},
 		gen,
 		judge,
